@@ -1,16 +1,24 @@
 // Engine `scan` (C11): a text of the documented pretty-format grammar through the real
 // checker, scanner and printer.
 //
-// Op line:   <text-hex|-> [alt=<text-hex|->]      (alt: a second rendering of the same choices)
-// Output:    C <count> W <written> R <rd>/<len> V <cell>* P <text2-hex|-> C2 <count2> W2 <written2> R2 <rd2>/<len2> V2 <cell>*
+// Op line:   <text-hex|-> [alt=<text-hex|->] [ns]   (alt: a second rendering of the same choices;
+//                                                   ns: the text is not a sentence of the grammar)
+// Output:    C <count> W <written> R <rd>/<len> V <cell>* P C2 <count2> W2 <written2> R2 <rd2>/<len2> V2 <cell>*
 //   count    rtosc_count_printed_arg_vals(text)
 //   written  number of rtosc_arg_val_t the scanner wrote when asked for `count` values: the cell
 //            block has exactly `count` cells followed by nothing (a scanner that writes more is
 //            caught by ASan); cells are pre-filled with a sentinel and counted afterwards
 //   rd/len   bytes consumed by rtosc_scan_arg_vals / strlen(text)
-//   V        the cells, as in harness/pretty.cpp (floats as bit patterns)
+//   V        the cells, as in harness/pretty.cpp (floats as bit patterns, booleans with their payload:
+//            `T1` = type 'T' with val.T == 1, `F0` = type 'F' with val.T == 0)
 //   P        rtosc_print_arg_vals(cells, default options), then the same on the printed text;
+//            the printed text itself is not part of the output: the property observes count, cells
+//            written, bytes consumed and values only (a printer that breaks its lines elsewhere
+//            is as good as long as the text scans back to the same values);
 //            `P !endless` (and nothing more) when the cells have a range with count <= 0 at top level
+// With `ns` (a text outside the grammar, on which the property demands nothing) everything is run
+// in the same way, but the output is only `NS`: what is compared is that the library stays
+// inside defined behaviour (a crash / sanitizer report replaces the line).
 // After `C <count>` with count < 0 (syntax error reported) the group ends there.
 // With alt=: ` | A C <count> W <written> R <rd>/<len> V <cell>*` for the second text is appended.
 #include "common.h"
@@ -35,7 +43,8 @@ static std::string cell(const rtosc_arg_val_t &a) {
     case 'm': snprintf(buf, sizeof buf, "m%02x%02x%02x%02x", a.val.m[0], a.val.m[1], a.val.m[2], a.val.m[3]); return buf;
     case 's': case 'S': return std::string(1, a.type) + ":" + (a.val.s ? hexs(a.val.s) : std::string("NULL"));
     case 'b': return std::string("b:") + hex(a.val.b.data, a.val.b.len > 0 ? (size_t)a.val.b.len : 0);
-    case 'T': case 'F': case 'N': case 'I': return std::string(1, a.type);
+    case 'T': case 'F': snprintf(buf, sizeof buf, "%c%d", a.type, (int)a.val.T); return buf;
+    case 'N': case 'I': return std::string(1, a.type);
     case 'a': snprintf(buf, sizeof buf, "a%d:%d", (int)(unsigned char)rtosc_av_arr_type(&a), rtosc_av_arr_len(&a)); return buf;
     case '-': snprintf(buf, sizeof buf, "R%d:%d", rtosc_av_rep_num(&a), rtosc_av_rep_has_delta(&a)); return buf;
     default: snprintf(buf, sizeof buf, "?%d", (int)(unsigned char)a.type); return buf;
@@ -108,7 +117,7 @@ static std::string step(const std::string &line) {
     text2[0] = 0;
     rtosc_print_arg_vals(s1.cells, (size_t)s1.count, text2, cap, NULL, 0);
     size_t len2 = strnlen(text2, cap);
-    o << " P " << hex((const unsigned char *)text2, len2) << " ";
+    o << " P ";
     bytes tb((unsigned char *)text2, (unsigned char *)text2 + len2);
     tb.push_back(0);
     free(text2);
@@ -120,6 +129,7 @@ static std::string step(const std::string &line) {
 
 static std::string step_line(const std::string &line) {
     std::string out = step(line);
+    if (out == "bad-op") return out;
     // a second rendering of the same choices: ` | A C <count> W <written> R <rd>/<len> V <cell>*`
     auto w = words(line);
     for (size_t k = 1; k < w.size(); ++k) {
@@ -134,6 +144,7 @@ static std::string step_line(const std::string &line) {
         out += " | A " + o.str();
         break;
     }
+    for (size_t k = 1; k < w.size(); ++k) if (w[k] == "ns") return "NS";
     return out;
 }
 
